@@ -17,20 +17,20 @@ open Evl.Encrypt
 /-- every encrypted value uses the per-event wrapper derived from the filter's wrapper and the event
 id when the payload carries event wrapper info, the filter's wrapper otherwise; every HMAC uses the
 same key with the per-event salt / info when non-nil, else the filter's -/
-theorem key_in_force (k : Keys) (ek : Option EventKeys) (ov : Overrides) (f : Field) (m : Nat) (l : Leaf)
-    (hex : f.exported = true) (hk : f.kind = .str m) (h : filterOne k ek ov f = some l) :
-    (action (fromTag f.tag ov) = .encrypt → ∃ key, keyFor k ek = some key ∧ l = .enc key m) ∧
-    (action (fromTag f.tag ov) = .hmac → ∃ key, keyFor k ek = some key ∧ l = .mac key (saltFor k ek) (infoFor k ek) m) := by
+theorem key_in_force (k : Keys) (ek : Option EventKeys) (ov : Overrides) (f : Field) (m : Nat) (o : FOut)
+    (hex : f.exported = true) (hk : f.kind = .str m) (h : filterOne k ek ov f = some o) :
+    (action (fromTag f.tag ov) = .encrypt → ∃ key, keyFor k ek = some key ∧ o = .one (.enc key m)) ∧
+    (action (fromTag f.tag ov) = .hmac → ∃ key, keyFor k ek = some key ∧ o = .one (.mac key (saltFor k ek) (infoFor k ek) m)) := by
   unfold filterOne at h
   simp only [hex, Bool.not_true, Bool.false_eq_true, if_false, hk] at h
   constructor
   · intro ha
-    simp only [ha] at h
+    simp only [ha, filterLeaf] at h
     cases hkey : keyFor k ek with
     | none => simp [hkey] at h
     | some key => simp [hkey] at h; exact ⟨key, rfl, h.symm⟩
   · intro ha
-    simp only [ha] at h
+    simp only [ha, filterLeaf] at h
     cases hkey : keyFor k ek with
     | none => simp [hkey] at h
     | some key => simp [hkey] at h; exact ⟨key, rfl, h.symm⟩
